@@ -148,7 +148,8 @@ class KernelSim(WorldBase):
                                       prefix=g.choice(["tgt", "tgt", "hist"]))
                 self._gen_faults(f, s, cfg["faults"])
                 evs.append(["session", s])
-            evs.append(["session", dict(target, role="target", ncu=g.choice(THRESHOLDS))])
+            target_ev = ["session", dict(target, role="target", ncu=g.choice(THRESHOLDS))]
+            mark = len(evs)
             if g.random() < 0.3:
                 B, Kk = g.randint(1, 3), g.randint(2, 6)
                 ent = [[[b, k], g.choice([1, 2, 3])] for b in range(B) for k in range(Kk) if g.random() < 0.6]
@@ -183,6 +184,12 @@ class KernelSim(WorldBase):
                 evs.append(["tilepop", {"S": S, "init": init, "tiles": [t for t in tiles if t],
                                         "regmask": g.randrange(1, 16), "startpos": g.random() < 0.75,
                                         "ncu": g.choice([None, None] + list(THRESHOLDS))}])
+            # the other sessions of the program (projected walks, renamed tensors, straight-line payload programs, tiled
+            # updates) run either before the target session - then they are part of "whatever ran before" - or after it
+            if g.random() < 0.5:
+                evs.append(target_ev)
+            else:
+                evs.insert(mark, target_ev)
             return evs
         if self.prop == "C16":
             flows = K.all_flows(case, g, tilings=g.random() < 0.3)
@@ -650,7 +657,7 @@ class KernelSim(WorldBase):
                     self.V("C15", "C15.isolated-counts", "session",
                            f"the report dump() returned after session {n0} read {asread} then; after session {self.nsess} "
                            f"the same object reads {held}")
-            if raw_dump is not None and end != "abandon":
+            if raw_dump is not None and end != "abandon" and not end_err and not Metrics.isCollecting():
                 self.held_dumps.append((self.nsess, raw_dump, copy.deepcopy(raw_dump)))
                 self.held_dumps = self.held_dumps[-4:]
         files = {}
@@ -754,11 +761,28 @@ class KernelSim(WorldBase):
             if self.nsess > 3:
                 self.probe("target_after_history")
 
+    def _quiesce(self):
+        """a part of the program that is not measuring anything runs with collection off: a session an earlier part
+        left dangling (abandoned, or its endCollect() rejected for an undrained trace) is ended first, its undrained
+        traces dropped"""
+        if not Metrics.isCollecting():
+            return
+        self.probe("dangling_session_ended_by_later_code")
+        try:
+            Metrics.endCollect()
+        except Exception:
+            try:
+                Metrics.traces = {}
+                Metrics.endCollect()
+            except Exception:
+                pass
+
     # ---- C15: a tensor that was looked at under one set of rank names, renamed, and then measured
     def ev_rename(self, a):
         """walk a tensor with plain loops outside any session, rename its ranks (Tensor.setRankIds, or a bare fiber
         wrapped by Tensor.fromFiber), then run a traced plain loop nest in a session: iteration counts and the rows'
         coordinates go to the ranks' current names"""
+        self._quiesce()
         dims = a["dims"]
         old_ids, new_ids = a["old"], a["new"]
         ent = [(tuple(p), v) for p, v in a["ent"]]
@@ -902,6 +926,7 @@ class KernelSim(WorldBase):
         +=, *=, <<= ; run with collection off and on: same values, and mul/add/update counts equal to what ran
         (one mul per *, one add per +, += is one update plus one add unless the old value was zero, *= is one mul
         and one update, <<= is one update)"""
+        self._quiesce()
         def run():
             boxes = [Payload(v) for v in a["init"]]
             want = [0, 0, 0]      # mul, update, add
@@ -979,6 +1004,7 @@ class KernelSim(WorldBase):
         """for each tile: for m, (z_ref, t_val) in z_m.__lshift__(t_m, start_pos=z_m.getSavedPos()): z_ref += t_val
         run with collection off, on with nothing traced, on with a subset of rank M's traces registered:
         same result, same counts, iteration count = loop bodies"""
+        self._quiesce()
         S = a["S"]
         init = {c: v for c, v in a["init"]}
         tiles = [{c: v for c, v in t} for t in a["tiles"]]
@@ -1309,6 +1335,8 @@ class KernelSim(WorldBase):
                   idiom 2:  for m, p in a_k.project(f, rank_id="M", interval=iv, tick=True).iterOccupancy(tick=False): ...
         (both idioms are the ones the library's own tests use under collection).  Rows of K-project_0: one per element
         the projection delivers, in order, carrying the source element's coordinate and its position in a_k."""
+        if self.prop == "C15":
+            self._quiesce()
         B, Kk = a["dims"]
         off = a["off"]
         iv = tuple(a["interval"]) if a.get("interval") else None
